@@ -10,7 +10,7 @@ open SFV.LoopComb
 /-! ## A. The loop as it is -/
 
 /-- **Deadlock witness (code as it is).** Two input ports; port 0 delivers one data token and terminates
-COMPLETED, port 1 terminates FAILED. Both streams are well formed. Under the read orders `[0, 1, 0]` and
+COMPLETED, port 1 terminates FAILED (or CANCELLED). Both streams are well formed. Under the read orders `[0, 1, 0]` and
 `[1, 0, 0]` every producer has delivered everything, yet the loop has not been left: a read of port 0 is
 outstanding (its tag is still in the iteration checklist) and nothing will ever arrive. -/
 theorem loop_failed_input_deadlock_witness :
@@ -18,7 +18,7 @@ theorem loop_failed_input_deadlock_witness :
       (∀ l ∈ streams, wellFormedStream l = true) ∧ (∀ l ∈ streams, hasTerm l = true) ∧
       run false (initSt streams) [0, 1, 0] = some s ∧ run false (initSt streams) [1, 0, 0] = some s ∧
       deadlocked s = true ∧ done s = false ∧ (∀ p ∈ s.ports, p.stream = []) :=
-  ⟨[[.data [0], .term true], [.term false]],
+  ⟨[[.data [0], .term .completed], [.term .failed]],
    { ports := [{ stream := [], pending := true, terminated := true, checklist := [[0]] },
                { stream := [], pending := false, terminated := true, checklist := [] }], failed := false },
    by decide⟩
@@ -31,8 +31,8 @@ theorem loop_asis_deadlock_is_permanent {s s' : St} (sched : List Nat) (hd : dea
 
 /-- **When exactly the loop as it is waits forever.** With terminating producers, a reachable state of the loop
 as it is has a read outstanding on an exhausted port exactly when some exhausted, terminated port still has a tag
-in its iteration checklist — nothing but the port's own iteration termination tokens (or its own FAILED
-termination) ever removes it, in particular not the FAILED termination of another port. -/
+in its iteration checklist — nothing but the port's own iteration termination tokens (or its own
+non-COMPLETED termination) ever removes it, in particular not the FAILED termination of another port. -/
 theorem loop_asis_deadlock_iff {streams : List (List Tok)} (hw : ∀ l ∈ streams, hasTerm l = true) {s : St}
     (hr : Reachable false streams s) :
     deadlocked s = true ↔ ∃ p ∈ s.ports, p.stream = [] ∧ p.terminated = true ∧ p.checklist ≠ [] :=
@@ -75,52 +75,69 @@ theorem loop_reachable_iff_run {fixed : Bool} {streams : List (List Tok)} {s : S
 
 /-! ## C. The patch changes nothing when no port fails -/
 
-/-- **Patch neutrality.** (1) In a state without recorded failure, a read that does not return a FAILED
-termination has the same effect in both versions. (2) If no stream contains a FAILED termination, both versions
-behave identically under every schedule. -/
+/-- **Patch neutrality.** (1) In a state without recorded failure, a read that does not return a FAILED / CANCELLED
+termination has the same effect in both versions. (2) If no stream contains a FAILED / CANCELLED termination, both
+versions behave identically under every schedule (SKIPPED terminations included: both versions clear the port's
+checklist and neither records a failure). -/
 theorem loop_patch_neutral_without_failure :
     (∀ (s : St) (i : Nat), s.failed = false →
-        (∀ p, s.ports[i]? = some p → p.stream.head? ≠ some (.term false)) → step true s i = step false s i) ∧
-    (∀ (streams : List (List Tok)), (∀ l ∈ streams, Tok.term false ∉ l) →
+        (∀ p, s.ports[i]? = some p → p.stream.head? ≠ some (.term .failed)) → step true s i = step false s i) ∧
+    (∀ (streams : List (List Tok)), (∀ l ∈ streams, Tok.term .failed ∉ l) →
         ∀ sched, run true (initSt streams) sched = run false (initSt streams) sched) :=
   ⟨fun _ _ hf hh => step_patch_neutral hf hh, fun _ h sched => run_patch_neutral (noFailSt_init h) sched⟩
 
 /-! ## D. Examples (the hypotheses are satisfiable, the runs evaluated) -/
 
 /-- the witness run, evaluated -/
-example : run false (initSt [[.data [0], .term true], [.term false]]) [0, 1, 0] =
+example : run false (initSt [[.data [0], .term .completed], [.term .failed]]) [0, 1, 0] =
     some { ports := [{ stream := [], pending := true, terminated := true, checklist := [[0]] },
                      { stream := [], pending := false, terminated := true, checklist := [] }],
            failed := false } := by decide
 
 /-- in the deadlocked witness state no read can return -/
 example : (List.range 3).all (fun i =>
-    (run false (initSt [[.data [0], .term true], [.term false]]) [0, 1, 0, i]).isNone) = true := by decide
+    (run false (initSt [[.data [0], .term .completed], [.term .failed]]) [0, 1, 0, i]).isNone) = true := by decide
 
 /-- the same streams under the repaired loop: every complete schedule leaves the loop -/
 example : ([[0, 1, 0], [1, 0, 0], [0, 0, 1]] : List (List Nat)).all (fun sched =>
-    match run true (initSt [[.data [0], .term true], [.term false]]) sched with
+    match run true (initSt [[.data [0], .term .completed], [.term .failed]]) sched with
     | some s => done s && !deadlocked s && s.failed
     | none => false) = true := by decide
 
 /-- the streams of the witness satisfy the hypothesis of the theorems about the repaired loop -/
-example : ∀ l ∈ [[Tok.data [0], .term true], [.term false]], hasTerm l = true := by decide
+example : ∀ l ∈ [[Tok.data [0], .term .completed], [.term .failed]], hasTerm l = true := by decide
 
 /-- a port with two producers (data and a second termination after the first one): not well formed, but covered -/
-example : wellFormedStream [.term false, .data [1], .term true] = false ∧
-    hasTerm [.term false, .data [1], .term true] = true := by decide
+example : wellFormedStream [.term .skipped, .data [1], .term .completed] = false ∧
+    hasTerm [.term .skipped, .data [1], .term .completed] = true := by decide
 
 /-- a failure-free run on two ports (data, iteration termination, termination) leaves the loop in both versions -/
 example : ([true, false] : List Bool).all (fun fixed =>
-    match run fixed (initSt [[.data [0], .iterTerm [0], .term true], [.data [0], .iterTerm [0], .term true]])
+    match run fixed (initSt [[.data [0], .iterTerm [0], .term .completed], [.data [0], .iterTerm [0], .term .completed]])
         [0, 1, 1, 0, 0, 1] with
     | some s => done s && !deadlocked s && !s.failed
+    | none => false) = true := by decide
+
+/-- a SKIPPED termination on one port does not record a failure in the repaired loop, and both versions behave
+identically under every order of the four reads (all end in the same state, loop left) -/
+example : ([[0, 0, 0, 1], [0, 0, 1, 0], [0, 1, 0, 0], [1, 0, 0, 0]] : List (List Nat)).all (fun sched =>
+    let w : List (List Tok) := [[.data [0], .iterTerm [0], .term .completed], [.term .skipped]]
+    run true (initSt w) sched == run false (initSt w) sched &&
+    match run true (initSt w) sched with
+    | some s => done s && !deadlocked s && !s.failed
+    | none => false) = true := by decide
+
+/-- a SKIPPED termination clears only its own port's checklist: the missing iteration termination of port 0 still
+blocks both versions, and `failed` stays unset (so the theorems about the repaired loop rightly say nothing) -/
+example : ([true, false] : List Bool).all (fun fixed =>
+    match run fixed (initSt [[.data [0], .term .completed], [.term .skipped]]) [0, 1, 0] with
+    | some s => deadlocked s && !s.failed
     | none => false) = true := by decide
 
 /-- without any failure both versions wait on an exhausted port when an iteration termination token is missing
 (the designed behaviour, not touched by the patch: the theorems about the repaired loop need `failed`) -/
 example : ([true, false] : List Bool).all (fun fixed =>
-    match run fixed (initSt [[.data [0], .term true]]) [0, 0] with
+    match run fixed (initSt [[.data [0], .term .completed]]) [0, 0] with
     | some s => deadlocked s && !s.failed
     | none => false) = true := by decide
 
